@@ -27,14 +27,22 @@ def rewrite_lines(
 ) -> typ.List[str]:
     """Replace occurances of patterns in old_lines with new_vinfo."""
     found_patterns: typ.Set[Pattern] = set()
+    replacements  : typ.Dict[int, typ.List[typ.Tuple[int, int, str]]] = {}
 
     new_lines = old_lines[:]
     for match in parse.iter_matches(old_lines, patterns):
         found_patterns.add(match.pattern)
         replacement = v1version.format_version(new_vinfo, match.pattern.raw_pattern)
         span_l, span_r = match.span
-        new_line = match.line[:span_l] + replacement + match.line[span_r:]
-        new_lines[match.lineno] = new_line
+        replacements.setdefault(match.lineno, []).append((span_l, span_r, replacement))
+
+    # There may be matches of multiple patterns on the same line. The spans
+    # refer to the old line, so we replace from right to left.
+    for lineno, line_replacements in replacements.items():
+        new_line = old_lines[lineno]
+        for span_l, span_r, replacement in sorted(line_replacements, reverse=True):
+            new_line = new_line[:span_l] + replacement + new_line[span_r:]
+        new_lines[lineno] = new_line
 
     non_matched_patterns = set(patterns) - found_patterns
     if non_matched_patterns:
